@@ -37,6 +37,7 @@ def shards(tier):
     out = [{'kind': 'hist', 'n': 300 if q else 2500} for _ in range(12)]
     out += [{'kind': 'interact', 'n': 30 if q else 300} for _ in range(4)]
     out += [{'kind': 'drain', 'n': 100 if q else 800} for _ in range(2)]
+    out += [{'kind': 'failsend', 'n': 150 if q else 1500} for _ in range(2)]
     return out
 
 
@@ -158,8 +159,104 @@ def check_drain(case, col=None):
         col.case(case, case['size'] > case['maxread'])
 
 
+@st.composite
+def failsend_cases(draw):
+    enc = draw(st.sampled_from(['ascii', 'latin-1']))
+    bad = '\xe9' if enc == 'ascii' else '\u20ac'
+    words = ['ok', 'a b', '', 'x' + bad, bad, 'tail' + bad + 'z', '\x03']
+    return {'transport': draw(st.sampled_from(['fd', 'socket', 'popen', 'pty'])), 'enc': enc,
+            'sends': draw(st.lists(st.tuples(st.sampled_from(['send', 'sendline', 'write', 'writelines']), st.sampled_from(words)),
+                                   min_size=1, max_size=5)),
+            # fd only: the reading end is closed before send number k (every later write fails with EPIPE)
+            'broken_at': draw(st.sampled_from([None, None, 0, 1, 2])),
+            'logs': sorted(draw(st.sets(st.sampled_from(['logfile', 'logfile_send']), min_size=1, max_size=2)))}
+
+
+def check_failsend(case, col=None):
+    """A request that cannot be delivered (text the codec cannot encode; a peer that has gone) is still a request:
+    the send logs hold what the send family was asked to send, in order, whether or not the write succeeded."""
+    import os
+    import socket
+    from ..engines import peers
+    from ..common import guard
+    tr = case['transport']
+    kw = {'encoding': case['enc'], 'timeout': 10}
+    cleanup = []
+    if tr == 'fd':
+        from pexpect import fdpexpect
+        r, w = os.pipe()
+        child = fdpexpect.fdspawn(w, **kw)
+        cleanup += [lambda: os.close(w)]
+        r_open = [True]
+    elif tr == 'socket':
+        from pexpect import socket_pexpect
+        a, b = socket.socketpair()
+        child = socket_pexpect.SocketSpawn(a, **kw)
+        cleanup += [a.close, b.close]
+    elif tr == 'popen':
+        from pexpect.popen_spawn import PopenSpawn
+        child = PopenSpawn(['/bin/cat'], **kw)
+        cleanup += [lambda: peers.reap_popen(child)]
+    else:
+        import pexpect
+        child = pexpect.spawn('/bin/cat', echo=False, **kw)
+        child.delaybeforesend = None
+        cleanup += [lambda: peers.reap(child)]
+    logs = {}
+    want = ''
+    failed = 0
+    try:
+        for name in case['logs']:
+            logs[name] = peers.RecLog()
+            setattr(child, name, logs[name])
+        for k, (op, text) in enumerate(case['sends']):
+            if tr == 'fd' and case['broken_at'] == k and r_open[0]:
+                os.close(r)
+                r_open[0] = False
+            before_req = want
+            want += text + (child.linesep if op == 'sendline' else '')
+            where = '%s(%r) on %s (%s)' % (op, text, tr, case['enc'])
+            try:
+                with guard(where, allow=(UnicodeEncodeError, OSError)):
+                    if op == 'writelines':
+                        child.writelines([text])
+                    else:
+                        getattr(child, op)(text)
+                this_failed = False
+            except (UnicodeEncodeError, OSError):
+                failed += 1
+                this_failed = True
+            for name, lg in logs.items():
+                got = lg.joined('')
+                if this_failed and op == 'sendline' and got == before_req + text:
+                    # a transport may send the text and the line separator as two requests: the second one is never
+                    # made when the first one fails
+                    want = got
+                if got != want:
+                    raise Violation('log-differs:' + name, 'after %s (%d request(s) failed so far): %s holds %r, the send family was asked to send %r'
+                                    % (where, failed, name, got[-40:], want[-40:]))
+        if tr == 'fd' and r_open[0]:
+            os.close(r)
+    finally:
+        for f in cleanup:
+            try:
+                f()
+            except OSError:
+                pass
+    if col is not None:
+        if failed:
+            col.label('failed-send:' + tr)
+        col.case(case, failed >= 1 and len(case['sends']) >= 2)
+
+
 def run_shard(spec, seed, idx, deadline_ts):
     col = Collector()
+    if spec['kind'] == 'failsend':
+        def fbody(case, c):
+            with case_watchdog(60, 'C11 failing sends'):
+                check_failsend(case, c)
+        run_batches(fbody, failsend_cases(), spec['n'], seed * 1000 + idx, col, batch=50, shrink=False, deadline_ts=deadline_ts)
+        return col
     if spec['kind'] == 'drain':
         def dbody(case, c):
             with case_watchdog(120, 'C11 drain'):
@@ -184,6 +281,8 @@ def run_shard(spec, seed, idx, deadline_ts):
 def replay(case, spec=None):
     if spec and spec.get('kind') == 'drain':
         return check_drain(case)
+    if (spec and spec.get('kind') == 'failsend') or 'sends' in case:
+        return check_failsend(case)
     if spec and spec.get('kind') == 'interact':
         from . import c15
         return c15.replay_logging(case)
